@@ -376,6 +376,10 @@ def run(ctx, rep):
     search_rules(ctx, facts, rep)
     names_rules(facts, rep)
     perentry_rules(facts, rep)
+    from rules.C19 import table_rules as cp437_table_rules
+    cp437_table_rules(facts, rep)      # reported as C03/C19-TABLE
+    from rules.C10 import extra_tolerance_rules
+    extra_tolerance_rules(facts, rep, rule="C10-EXTRA")
     rep.floor("C03-CODEC", 55)
     rep.floor("C03-Z64", 8)
     rep.floor("C03-CENTRAL", 6)
